@@ -22,8 +22,6 @@
 (***************************************************************************)
 EXTENDS Integers, Sequences, FiniteSets, TLC
 
-CONSTANTS P          \* page size of the page allocator (power of two, >= 128)
-
 PA  == 128           \* sizeof(PageArray)         = 8 + 15 * 8
 OA  == 368           \* sizeof(OversizePageArray) = 8 + 15 * 24
 DA  == 248           \* sizeof(DestroyTaskArray)  = 8 + 15 * 16
@@ -31,6 +29,8 @@ CAP == 15            \* PAGE_ARRAY_CAPACITY = DESTROY_TASK_ARRAY_CAPACITY
 UB  == 4194304       \* first address of upstream "rec"
 
 VARIABLES
+  P,       \* page size of the page allocator (power of two, >= 128; fixed by Init, a variable only so that one
+           \* trace validation run can hold executions with different page sizes)
   pas,     \* page arrays, oldest first:        [at, ents : Seq(page address)]   (insertion order)
   oas,     \* oversize page arrays, oldest first:[at, ents : Seq([a, n, al, src])]
   das,     \* destroy task arrays, oldest first: [at, ents : Seq([id, fn])]
@@ -46,7 +46,7 @@ VARIABLES
   ucur,    \* upstream side: bump cursors [rec |-> .., dflt |-> ..]
   ev       \* the last operation with everything it did to the outside world
 
-vars == <<pas, oas, das, fb, fe, used, alloc, up, nd, blocks, intact, pages, ulive, ucur, ev>>
+vars == <<P, pas, oas, das, fb, fe, used, alloc, up, nd, blocks, intact, pages, ulive, ucur, ev>>
 
 -----------------------------------------------------------------------------
 RoundUp(x, a) == ((x + a - 1) \div a) * a
@@ -157,7 +157,8 @@ Install(s) ==
   /\ pages' = s.pages /\ ulive' = s.ulive /\ ucur' = s.ucur
 
 -----------------------------------------------------------------------------
-Init ==
+Init(pagesize) ==
+  /\ P = pagesize
   /\ pas = <<>> /\ oas = <<>> /\ das = <<>>
   /\ fb = 0 /\ fe = 0 /\ used = 0 /\ alloc = 0 /\ up = "rec" /\ nd = 0
   /\ blocks = {} /\ intact = TRUE
@@ -170,7 +171,7 @@ Allocate(b, al) ==
      /\ blocks' = blocks \cup {[a |-> s.res, n |-> b]}
      /\ intact' = (intact /\ Untouched(s.wr, blocks))
      /\ ev' = [NoEv EXCEPT !.op = "alloc", !.n = b, !.al = al, !.res = s.res, !.pal = s.pal, !.ual = s.ual]
-     /\ UNCHANGED nd
+     /\ UNCHANGED <<nd, P>>
 
 \* macro action for model checking: cnt allocations in one step (crosses the 15 entry boundaries)
 RECURSIVE Many(_, _, _, _)
@@ -185,7 +186,7 @@ AllocateMany(cnt, b, al) ==
      /\ blocks' = s.bl
      /\ intact' = s.ok
      /\ ev' = [NoEv EXCEPT !.op = "am", !.n = b, !.al = al, !.id = cnt, !.res = s.res, !.pal = s.pal, !.ual = s.ual]
-     /\ UNCHANGED nd
+     /\ UNCHANGED <<nd, P>>
 
 (* register_destructor -> get_destroy_task [-> do_get_destroy_task_in_new_array -> allocate<8>(248)] *)
 RegisterDestructor ==
@@ -204,7 +205,7 @@ RegisterDestructor ==
              IN /\ Install(s2)
                 /\ intact' = (intact /\ Untouched(s.wr \cup {Hdr(s.res), DaEnt(s.res, 1)}, blocks))
                 /\ ev' = [NoEv EXCEPT !.op = "rd", !.id = id, !.fn = t.fn, !.pal = s.pal, !.ual = s.ual]
-     /\ UNCHANGED blocks
+     /\ UNCHANGED <<blocks, P>>
 
 RegisterMany(cnt) ==
   /\ cnt \in 1..CAP /\ Len(das) > 0 /\ Len(Last(das).ents) + cnt <= CAP
@@ -215,7 +216,7 @@ RegisterMany(cnt) ==
         /\ intact' = (intact /\ Untouched({DaEnt(arr.at, k0 + i) : i \in 1..cnt}, blocks))
         /\ nd' = nd + cnt
         /\ ev' = [NoEv EXCEPT !.op = "dm", !.id = cnt]
-  /\ UNCHANGED <<pas, oas, fb, fe, used, alloc, up, pages, ulive, ucur, blocks>>
+  /\ UNCHANGED <<P, pas, oas, fb, fe, used, alloc, up, pages, ulive, ucur, blocks>>
 
 (* contains(ptr), computed as the code does: the newest page counts up to its used part
    page_size - (free_end - free_begin), every other page entirely, oversize blocks with their size *)
@@ -231,7 +232,7 @@ ContainsRes(p) ==
 
 Contains(p) ==
   /\ ev' = [NoEv EXCEPT !.op = "contains", !.p = p, !.bres = ContainsRes(p)]
-  /\ UNCHANGED <<pas, oas, das, fb, fe, used, alloc, up, nd, blocks, intact, pages, ulive, ucur>>
+  /\ UNCHANGED <<P, pas, oas, das, fb, fe, used, alloc, up, nd, blocks, intact, pages, ulive, ucur>>
 
 (* release(): destruct_all (newest array first, newest task first), then every page array's pages in one
    deallocate batch (newest array first), then every oversize block to the CURRENT upstream *)
@@ -251,19 +252,19 @@ Release(opname) ==
      /\ ucur' = [u \in {"rec", "dflt"} |-> IF \E e \in ul2 : e.src = u THEN ucur[u] ELSE UBase(u)]
      /\ ev' = [NoEv EXCEPT !.op = opname, !.dts = dts, !.pfr = pfr, !.ufr = ufr,
                            !.prepages = pages, !.preulive = ulive, !.prend = nd]
-     /\ UNCHANGED up
+     /\ UNCHANGED <<up, P>>
 
 (* operator=(&&) into an empty resource configured with the same page allocator and upstream: a swap *)
 MoveAssign ==
   /\ ev' = [NoEv EXCEPT !.op = "mva"]
-  /\ UNCHANGED <<pas, oas, das, fb, fe, used, alloc, up, nd, blocks, intact, pages, ulive, ucur>>
+  /\ UNCHANGED <<P, pas, oas, das, fb, fe, used, alloc, up, nd, blocks, intact, pages, ulive, ucur>>
 
 (* move constructor: delegates to the default constructor, then operator=(&&), which swaps
    _page_allocator but NOT _upstream: the new object points to new_delete_resource() *)
 MoveConstruct ==
   /\ up' = "dflt"
   /\ ev' = [NoEv EXCEPT !.op = "mvc"]
-  /\ UNCHANGED <<pas, oas, das, fb, fe, used, alloc, nd, blocks, intact, pages, ulive, ucur>>
+  /\ UNCHANGED <<P, pas, oas, das, fb, fe, used, alloc, nd, blocks, intact, pages, ulive, ucur>>
 
 -----------------------------------------------------------------------------
 (* L1: the clauses of property C06 *)
